@@ -1089,3 +1089,110 @@ def stuck_loops(func):
         if not changed and names:
             out.append((w.lineno, ast.unparse(w.test)))
     return out
+
+
+def vacuous_hasattr_probes(repo, func):
+    """hasattr(x, 'a') used as "x has an a" where every class of the package that defines .a sets it to None in __init__ (the
+    original source, before the loader's normalisations): the probe is always true, so the guarded code reads None where the
+    author expected a value (TypeError in arithmetic, 'None' in text).  -> [(attribute, line)]"""
+    cache = getattr(repo, '_none_inited', None)
+    if cache is None:
+        cache = {}
+        for rel, src in repo.sources.items():
+            try:
+                tree = ast.parse(src)
+            except SyntaxError:
+                continue
+            for cls in [n for n in ast.walk(tree) if isinstance(n, ast.ClassDef)]:
+                for m in cls.body:
+                    if isinstance(m, ast.FunctionDef) and m.name == '__init__' and m.args.args:
+                        s0 = m.args.args[0].arg
+                        for st in m.body:
+                            if isinstance(st, ast.Assign) and len(st.targets) == 1 and isinstance(st.targets[0], ast.Attribute) and isinstance(st.targets[0].value, ast.Name) \
+                                    and st.targets[0].value.id == s0 and isinstance(st.value, ast.Constant) and st.value.value is None:
+                                cache.setdefault(st.targets[0].attr, []).append(cls.name)
+        repo._none_inited = cache
+    out = []
+    # the ORIGINAL text of the function (normalisations may have rewritten None tests into hasattr probes)
+    try:
+        tree = ast.parse(repo.sources[func.relpath])
+    except (SyntaxError, KeyError):
+        return out
+    orig = None
+    for n in ast.walk(tree):
+        if isinstance(n, ast.FunctionDef) and n.name == func.name and n.lineno == getattr(func.node, 'lineno', -1):
+            orig = n
+    if orig is None:
+        return out
+    for n in ast.walk(orig):
+        if isinstance(n, ast.Call) and isinstance(n.func, ast.Name) and n.func.id == 'hasattr' and len(n.args) == 2 and isinstance(n.args[1], ast.Constant) \
+                and n.args[1].value in cache:
+            out.append((n.args[1].value, n.lineno))
+    return out
+
+
+def regex_digit_gaps(repo, relprefix):
+    """Regular expressions (literal patterns in modules under relprefix) that can match some decimal digits but never the
+    digit 0 - or, generally, only a proper subset of 0-9 anywhere in the pattern: a number token containing a missing digit is
+    truncated or split when such a pattern is used to tokenise.  -> [(relpath, line, pattern, missing digits)]"""
+    import re
+    try:
+        from re import _parser as sre_parse, _constants as sre_c
+    except ImportError:          # older Pythons
+        import sre_parse, sre_constants as sre_c
+    out = []
+    for rel, tree in repo.trees.items():
+        if not rel.startswith(relprefix):
+            continue
+        for n in ast.walk(tree):
+            if not (isinstance(n, ast.Call) and isinstance(n.func, ast.Attribute) and isinstance(n.func.value, ast.Name) and n.func.value.id == 're' and n.args
+                    and n.func.attr in ('compile', 'findall', 'finditer', 'split', 'match', 'fullmatch', 'search', 'sub')):
+                continue
+            p = n.args[0]
+            if not (isinstance(p, ast.Constant) and isinstance(p.value, str)):
+                continue
+            try:
+                parsed = sre_parse.parse(p.value)
+            except Exception:
+                continue
+            digits = set()
+
+            def walk(items):
+                for op, av in items:
+                    name = str(op)
+                    if name == 'LITERAL' and 48 <= av <= 57:
+                        digits.add(av - 48)
+                    elif name == 'IN':
+                        neg = any(str(o) == 'NEGATE' for o, _ in av)
+                        got = set()
+                        for o, a in av:
+                            so = str(o)
+                            if so == 'LITERAL' and 48 <= a <= 57:
+                                got.add(a - 48)
+                            elif so == 'RANGE':
+                                got |= {d for d in range(10) if a[0] <= 48 + d <= a[1]}
+                            elif so == 'CATEGORY' and str(a) in ('CATEGORY_DIGIT', 'CATEGORY_WORD'):
+                                got |= set(range(10))
+                            elif so == 'CATEGORY' and str(a) in ('CATEGORY_NOT_SPACE',):
+                                got |= set(range(10))
+                        digits.update(set(range(10)) - got if neg else got)
+                    elif name == 'CATEGORY' and str(av) in ('CATEGORY_DIGIT', 'CATEGORY_WORD', 'CATEGORY_NOT_SPACE'):
+                        digits.update(range(10))
+                    elif name == 'ANY':
+                        digits.update(range(10))
+                    elif name in ('MAX_REPEAT', 'MIN_REPEAT', 'POSSESSIVE_REPEAT'):
+                        walk(av[2])
+                    elif name == 'SUBPATTERN':
+                        walk(av[-1])
+                    elif name == 'BRANCH':
+                        for alt in av[1]:
+                            walk(alt)
+                    elif name in ('ASSERT', 'ASSERT_NOT', 'ATOMIC_GROUP'):
+                        walk(av[1] if isinstance(av, tuple) else av)
+            try:
+                walk(parsed)
+            except Exception:
+                continue
+            if digits and digits != set(range(10)):
+                out.append((rel, n.lineno, p.value, sorted(set(range(10)) - digits)))
+    return out
